@@ -328,13 +328,13 @@ class ScriptedSim(mosaik_api_v3.Simulator):
                 if rng.random() < ag.get("p_set", 0.6):
                     val = f"{self.sid}:set/{src_full}>{dest_full}/{attr}@{time}#{k}"
                     data.setdefault(src_full, {}).setdefault(dest_full, {})[attr] = val
-            if data:
+            if data and not ag.get("dry"):
                 acts.append(("set_data", data))
             req: Dict[str, List[str]] = {}
             for full_id, attr in ag.get("get", []):
                 if rng.random() < ag.get("p_get", 0.5):
                     req.setdefault(full_id, []).append(attr)
-            if req:
+            if req and not ag.get("dry"):
                 acts.append(("get_data", req))
         ev = self.beh.get("set_events")
         if ev and (str(time) in ev or "*" in ev):
